@@ -131,12 +131,12 @@ type E3Kind uint8
 const (
 	KNil E3Kind = iota
 	KBool
-	KInt   // signed family on the wire (or positive fixint when Width==0 and v>=0)
-	KUint  // unsigned family on the wire
-	KF32   // float32 on the wire
-	KF64   // float64 on the wire
-	KStr   // str family
-	KBin   // bin family
+	KInt  // signed family on the wire (or positive fixint when Width==0 and v>=0)
+	KUint // unsigned family on the wire
+	KF32  // float32 on the wire
+	KF64  // float64 on the wire
+	KStr  // str family
+	KBin  // bin family
 	KArr
 	KMap
 	KExt  // arbitrary extension (Ext = type, Bin = payload)
@@ -170,29 +170,29 @@ type E3KV struct {
 	Val    E3Val
 }
 
-func VNil() E3Val              { return E3Val{Kind: KNil} }
-func VBool(b bool) E3Val       { return E3Val{Kind: KBool, Bool: b} }
-func VInt(v int64) E3Val       { return E3Val{Kind: KInt, Int: v} }
+func VNil() E3Val                { return E3Val{Kind: KNil} }
+func VBool(b bool) E3Val         { return E3Val{Kind: KBool, Bool: b} }
+func VInt(v int64) E3Val         { return E3Val{Kind: KInt, Int: v} }
 func VIntW(v int64, w int) E3Val { return E3Val{Kind: KInt, Int: v, Width: w} }
 func VUintW(v uint64, w int) E3Val {
 	return E3Val{Kind: KUint, Uint: v, Width: w}
 }
-func VF32(f float32) E3Val     { return E3Val{Kind: KF32, F: float64(f)} }
-func VF64(f float64) E3Val     { return E3Val{Kind: KF64, F: f} }
-func VStr(s string) E3Val      { return E3Val{Kind: KStr, Str: s} }
+func VF32(f float32) E3Val        { return E3Val{Kind: KF32, F: float64(f)} }
+func VF64(f float64) E3Val        { return E3Val{Kind: KF64, F: f} }
+func VStr(s string) E3Val         { return E3Val{Kind: KStr, Str: s} }
 func VStrW(s string, w int) E3Val { return E3Val{Kind: KStr, Str: s, Width: w} }
-func VBin(b []byte) E3Val      { return E3Val{Kind: KBin, Bin: b} }
-func VArr(xs ...E3Val) E3Val   { return E3Val{Kind: KArr, Arr: xs} }
-func VMap(kvs ...E3KV) E3Val   { return E3Val{Kind: KMap, Map: kvs} }
+func VBin(b []byte) E3Val         { return E3Val{Kind: KBin, Bin: b} }
+func VArr(xs ...E3Val) E3Val      { return E3Val{Kind: KArr, Arr: xs} }
+func VMap(kvs ...E3KV) E3Val      { return E3Val{Kind: KMap, Map: kvs} }
 func VExt(t int8, b []byte) E3Val { return E3Val{Kind: KExt, Ext: t, Bin: b} }
-func VRaw(b []byte) E3Val      { return E3Val{Kind: KRaw, Bin: b} }
-func KV(k string, v E3Val) E3KV { return E3KV{Key: k, Val: v} }
+func VRaw(b []byte) E3Val         { return E3Val{Kind: KRaw, Bin: b} }
+func KV(k string, v E3Val) E3KV   { return E3KV{Key: k, Val: v} }
 
 // VTs32/64/96: msgpack timestamp extension in the given format. The caller is
 // responsible for the value fitting the format (32: nsec==0, sec<2^32; 64: sec<2^34).
-func VTs32(sec int64) E3Val          { return E3Val{Kind: KTime, Width: 32, Sec: sec} }
-func VTs64(sec, nsec int64) E3Val    { return E3Val{Kind: KTime, Width: 64, Sec: sec, Nsec: nsec} }
-func VTs96(sec, nsec int64) E3Val    { return E3Val{Kind: KTime, Width: 96, Sec: sec, Nsec: nsec} }
+func VTs32(sec int64) E3Val       { return E3Val{Kind: KTime, Width: 32, Sec: sec} }
+func VTs64(sec, nsec int64) E3Val { return E3Val{Kind: KTime, Width: 64, Sec: sec, Nsec: nsec} }
+func VTs96(sec, nsec int64) E3Val { return E3Val{Kind: KTime, Width: 96, Sec: sec, Nsec: nsec} }
 
 // Get returns the value of the first entry named key of a KMap.
 func (v E3Val) Get(key string) (E3Val, bool) {
@@ -797,14 +797,29 @@ type E3Obs struct {
 }
 
 type E3Log struct {
-	mu  sync.Mutex
-	obs []E3Obs
+	mu   sync.Mutex
+	obs  []E3Obs
+	hook func(E3Obs)
 }
 
 func (l *E3Log) add(o E3Obs) {
 	l.mu.Lock()
 	o.Seq = len(l.obs)
 	l.obs = append(l.obs, o)
+	h := l.hook
+	l.mu.Unlock()
+	if h != nil {
+		h(o)
+	}
+}
+
+// SetHook installs f (nil removes it): it is called, outside the log's lock and on the
+// goroutine of the collaborator, right after every observation has been recorded and
+// before the collaborator returns to the router. Fault scripts use it to act "after the
+// k-th hand-over" (e.g. cancel the request's context). Added in round 2; absent = no-op.
+func (l *E3Log) SetHook(f func(E3Obs)) {
+	l.mu.Lock()
+	l.hook = f
 	l.mu.Unlock()
 }
 
@@ -1018,7 +1033,7 @@ var _ sharder.Sharder = (*E3Sharder)(nil)
 // SetOwner scripts ownership: f returns the peer address owning the trace, or "" (or
 // E3SelfAddr) for "mine". nil = everything is mine.
 func (s *E3Sharder) SetOwner(f func(traceID string) string) { s.mu.Lock(); s.owner = f; s.mu.Unlock() }
-func (s *E3Sharder) MyShard() sharder.Shard                  { return s.self }
+func (s *E3Sharder) MyShard() sharder.Shard                 { return s.self }
 func (s *E3Sharder) WhichShard(id string) sharder.Shard {
 	s.mu.Lock()
 	f := s.owner
@@ -1268,6 +1283,9 @@ type E3Req struct {
 	// mid-stream is what net/http hands a handler whose client went away).
 	BodyReader io.Reader
 	Note       string // free text for witnesses
+	// Ctx, when set, is the request's context for Serve (a client that goes away is a
+	// cancelled request context). nil = context.Background(), as before.
+	Ctx context.Context
 }
 
 func (r *E3Req) Set(k, v string) *E3Req {
@@ -1318,14 +1336,14 @@ func (r *E3Req) Witness() map[string]any {
 }
 
 type E3Resp struct {
-	Status            int         `json:"status"`              // what a client would see: first WriteHeader, else 200
-	WriteHeaderCalls  []int       `json:"write_header_calls"`  // every explicit WriteHeader call, in order
-	Writes            int         `json:"writes"`              // number of Write calls
-	HeaderAfterWrite  bool        `json:"header_after_write"`  // an explicit WriteHeader arrived after body bytes
-	Body              string      `json:"body"`
-	Header            http.Header `json:"header"`
-	Panicked          string      `json:"panicked,omitempty"`  // a panic escaped the handler chain
-	TransportErr      string      `json:"transport_err,omitempty"`
+	Status           int         `json:"status"`             // what a client would see: first WriteHeader, else 200
+	WriteHeaderCalls []int       `json:"write_header_calls"` // every explicit WriteHeader call, in order
+	Writes           int         `json:"writes"`             // number of Write calls
+	HeaderAfterWrite bool        `json:"header_after_write"` // an explicit WriteHeader arrived after body bytes
+	Body             string      `json:"body"`
+	Header           http.Header `json:"header"`
+	Panicked         string      `json:"panicked,omitempty"` // a panic escaped the handler chain
+	TransportErr     string      `json:"transport_err,omitempty"`
 }
 
 // StatusesWritten is the number of statuses the handler chain produced: explicit
@@ -1388,6 +1406,9 @@ func (b *E3Bench) Serve(req *E3Req) *E3Resp {
 	if err != nil {
 		// what a client library would refuse to send; callers use ServeTCP for those
 		return &E3Resp{TransportErr: err.Error()}
+	}
+	if req.Ctx != nil {
+		hr = hr.WithContext(req.Ctx)
 	}
 	hr.RequestURI = req.Path
 	hr.RemoteAddr = "127.0.0.1:55555"
@@ -1548,12 +1569,12 @@ func e3EventReq(l E3Listener, enc E3Encoding, dataset, apiKey string, data E3Val
 // Extra…, time, samplerate, data unless Order names another one (values: "time",
 // "samplerate", "data").
 type E3BatchItem struct {
-	Time     *E3Val // JSON: KStr (RFC3339 or digits); msgpack: KTime (or anything, for faults)
-	Rate     *E3Val
-	Data     *E3Val // KMap; nil omits the key
-	Order    []string
-	Extra    []E3KV
-	Raw      *E3Val // when set, the element is exactly this value (ill-typed elements)
+	Time  *E3Val // JSON: KStr (RFC3339 or digits); msgpack: KTime (or anything, for faults)
+	Rate  *E3Val
+	Data  *E3Val // KMap; nil omits the key
+	Order []string
+	Extra []E3KV
+	Raw   *E3Val // when set, the element is exactly this value (ill-typed elements)
 }
 
 func (it E3BatchItem) val() E3Val {
